@@ -7,7 +7,7 @@ Fact files of variants are cached under .cache/variants, keyed by /repo's HEAD, 
 diff, the variant patch and the feature configuration, so the thorough runs of the 15
 properties compile each variant once; several variants are compiled in parallel, each worker with
 its own cargo target directory."""
-import os, json, subprocess, tempfile, shutil, importlib, hashlib
+import os, json, subprocess, tempfile, shutil, importlib, hashlib, time
 from concurrent.futures import ThreadPoolExecutor
 import threading
 
@@ -16,6 +16,23 @@ REPO = os.environ.get("HC_REPO", "/repo")
 VCACHE = os.path.join(ROOT, ".cache", "variants")
 WORKERS = 4
 _wt_lock = threading.Lock()
+
+
+class _wt_flock:
+    """cross-process lock around `git worktree add / remove / prune`: a prune of one process
+    removes the half-created administrative directory of another process's add"""
+    def __enter__(self):
+        import fcntl
+        os.makedirs(os.path.join(ROOT, ".cache"), exist_ok=True)
+        self.f = open(os.path.join(ROOT, ".cache", "worktree.lock"), "w")
+        fcntl.flock(self.f, fcntl.LOCK_EX)
+        return self
+
+    def __exit__(self, *a):
+        import fcntl
+        fcntl.flock(self.f, fcntl.LOCK_UN)
+        self.f.close()
+        return False
 
 
 def variants_for(prop):
@@ -65,8 +82,14 @@ def variant_facts(m, extract, worker=0, state=None):
     tmp = tempfile.mkdtemp(prefix="hcsa-selftest-")
     work = os.path.join(tmp, "repo")
     try:
-        with _wt_lock:
-            subprocess.run(["git", "-C", REPO, "worktree", "add", "--detach", "-q", work], check=True, capture_output=True)
+        with _wt_lock, _wt_flock():
+            for attempt in range(4):
+                p = subprocess.run(["git", "-C", REPO, "worktree", "add", "--detach", "-q", work], capture_output=True, text=True)
+                if p.returncode == 0:
+                    break
+                time.sleep(0.5 * (attempt + 1))
+            else:
+                return None, ("skipped", "could not create a scratch worktree of /repo: %s" % p.stderr.strip()[:200])
         # bring over uncommitted edits of /repo's working tree as well
         if diff.strip():
             p = subprocess.run(["git", "-C", work, "apply"], input=diff, text=True, capture_output=True)
@@ -85,7 +108,7 @@ def variant_facts(m, extract, worker=0, state=None):
             return None, ("fail", "variant does not type-check / extract: %r" % (e,))
         return out, ""
     finally:
-        with _wt_lock:
+        with _wt_lock, _wt_flock():
             subprocess.run(["git", "-C", REPO, "worktree", "remove", "--force", work], capture_output=True)
             subprocess.run(["git", "-C", REPO, "worktree", "prune"], capture_output=True)
         shutil.rmtree(tmp, ignore_errors=True)
